@@ -50,11 +50,12 @@ theorem C05_chunks_zero {α : Type} (ms : List α) : chunks 0 ms = none := rfl
 /-- **C05_worker_flush** — for every bundle mode (None, primary, daily), every list of
 flattened matches without a crash (matches may be skipped because of unreadable files):
 the bundles a worker puts on the queue, concatenated, are exactly its non-`None`
-collocation results in order, each once — the tail flush included; no crash marker is put
-(in particular `matches[processed]` never raises); with bundling every bundle is a non-empty
-run of one tag and consecutive bundles have different tags (maximal runs); without bundling
-every put holds exactly one result. -/
+collocation results in order, each once and each tagged with the bundle tag of *its own*
+files — the tail flush included; no crash marker is put; with bundling every bundle is a
+non-empty run of one tag and consecutive bundles have different tags (maximal runs); without
+bundling every put holds exactly one result. -/
 theorem C05_worker_flush (b : Bundle) (jobs : List Job) (hc : ∀ j ∈ jobs, j.out ≠ .crash) :
+    ((bundlesOf (workerItems b jobs)).flatten = producedC b jobs) ∧
     ((bundlesOf (workerItems b jobs)).flatten.map (·.r) = produced jobs) ∧
     Item.crashed ∉ workerItems b jobs ∧
     (b ≠ .none →
@@ -63,19 +64,54 @@ theorem C05_worker_flush (b : Bundle) (jobs : List Job) (hc : ∀ j ∈ jobs, j.
         ∀ x ∈ (bundlesOf (workerItems b jobs))[i], ∀ y ∈ (bundlesOf (workerItems b jobs))[i + 1],
           x.tag ≠ y.tag)) ∧
     (b = .none → ∀ c ∈ bundlesOf (workerItems b jobs), c.length = 1) := by
-  have hl := nYield_le_length jobs
-  refine ⟨?_, worker_no_crash_item b jobs [] none jobs hc hl, ?_, ?_⟩
-  · by_cases hb : b = .none
-    · subst hb; exact emitted_worker_none jobs none jobs hc hl
-    · have := emitted_worker_bundle b hb jobs [] none jobs hc hl
-      simpa [emitted, workerItems] using this
+  have hflat : (bundlesOf (workerItems b jobs)).flatten = producedC b jobs := by
+    unfold workerItems
+    by_cases hb : b = .none
+    · subst hb; exact flat_worker_none none jobs hc
+    · simpa using flat_worker_bundle b hb [] none jobs hc
+  refine ⟨hflat, ?_, worker_no_crash_item b [] none jobs hc, ?_, ?_⟩
+  · rw [hflat, producedC_map_r]
   · intro hb
     have hinv : CacheInv [] none := ⟨by simp, by simp⟩
-    refine ⟨bundles_uniform b hb jobs [] none jobs hinv, ?_⟩
-    exact List.isChain_iff_getElem.mp (bundles_chain b hb jobs [] none jobs hinv)
+    refine ⟨bundles_uniform b hb [] none jobs hinv, ?_⟩
+    exact List.isChain_iff_getElem.mp (bundles_chain b hb [] none jobs hinv)
   · intro hb
     subst hb
-    exact bundles_none_single jobs none jobs
+    exact bundles_none_single none jobs
+
+/-- **C05_one_bundle_per_primary** — with `bundle='primary'`, for every list of flattened
+matches whose primaries come in `find` order (non-decreasing file index — true of every chunk
+of `match`'s output, `C05_matches_sorted`), also when matches are skipped because of unreadable
+files: every result is tagged with its own primary file, and bundles have pairwise different
+tags — so all results of one primary file form exactly one bundle (one output file per
+primary), never two. -/
+theorem C05_one_bundle_per_primary (jobs : List Job) (hc : ∀ j ∈ jobs, j.out ≠ .crash)
+    (hs : (jobs.map (·.prim)).Pairwise (· ≤ ·)) :
+    (bundlesOf (workerItems .primary jobs)).flatten = producedC .primary jobs ∧
+    (∀ x ∈ producedC .primary jobs, ∃ j ∈ jobs, x.tag = .prim j.prim ∧ j.out = .res (some x.r)) ∧
+    (bundlesOf (workerItems .primary jobs)).Pairwise (fun c d => ∀ x ∈ c, ∀ y ∈ d, x.tag ≠ y.tag) := by
+  obtain ⟨hflat, _, _, hb, _⟩ := C05_worker_flush .primary jobs hc
+  obtain ⟨hun, _⟩ := hb (by decide)
+  have hinv : CacheInv [] none := ⟨by simp, by simp⟩
+  have hch := bundles_chain .primary (by decide) [] none jobs hinv
+  refine ⟨hflat, producedC_primary_spec jobs, ?_⟩
+  apply pairwise_of_sorted _ (fun c hcm => (hun c hcm).1) hch
+  · rw [hflat]; exact producedC_primary_sorted jobs hs
+  · rw [hflat]
+    intro x hx y hy hk
+    obtain ⟨j1, _, h1, _⟩ := producedC_primary_spec jobs x hx
+    obtain ⟨j2, _, h2, _⟩ := producedC_primary_spec jobs y hy
+    exact tagKey_injOn_same hk (Or.inl ⟨_, _, h1, h2⟩)
+
+/-- **C05_matches_sorted** — the flattened output of `match` lists the primaries in
+non-decreasing order (each primary's partners are contiguous), and so does every contiguous
+chunk handed to a worker. -/
+theorem C05_matches_sorted (files1 files2 : List (Int × Int)) (start end_ : Option Int) (mi : Int)
+    (ms : List (Nat × List Nat)) (hm : matchFiles files1 files2 start end_ mi = .ok ms)
+    (k : Nat) (cs : List (List (Nat × List Nat))) (hk : chunks k ms = some cs) :
+    ∀ c ∈ cs, ((flattenMatches c).map (·.1)).Pairwise (· ≤ ·) := by
+  intro c hcm
+  exact sorted_chunk hm hk hcm
 
 /-- **C05_worker_crash** — an exception while a match is processed (unreadable file without
 `skip_file_errors`) makes the worker put the crash marker as its last object; the bundle
@@ -83,7 +119,7 @@ cached so far and all later matches are not delivered (the property makes no cla
 theorem C05_worker_crash (b : Bundle) (pre post : List Job) (j : Job) (hj : j.out = .crash)
     (hc : ∀ x ∈ pre, x.out ≠ .crash) :
     ∃ is, workerItems b (pre ++ j :: post) = is ++ [.crashed] :=
-  worker_crash b _ [] none pre post j hj hc
+  worker_crash b [] none pre post j hj hc
 
 /-- **C05_skip_errors** (worker level) — with `skip_file_errors` a worker never crashes on an
 unreadable file, and what it delivers are exactly the results of its matches that do not
@@ -101,7 +137,7 @@ theorem C05_skip_errors (b : Bundle) (bad1 bad2 : Nat → Bool) (coll : Nat → 
     obtain ⟨m, _, rfl⟩ := hj
     simp only [outcome]
     split <;> simp
-  obtain ⟨h1, h2, _⟩ := C05_worker_flush b jobs hc
+  obtain ⟨_, h1, h2, _⟩ := C05_worker_flush b jobs hc
   refine ⟨h2, h1.trans ?_⟩
   exact produced_mkJobs_skip bad1 bad2 coll flat
 
@@ -307,10 +343,16 @@ private def jobsEx : List Job :=
 
 -- hypotheses of C05_worker_flush are satisfiable by a non-trivial job list
 example : ∀ j ∈ jobsEx, j.out ≠ .crash := by decide
--- bundle=primary: r1,r2 of primary 0 in one bundle (flushed when the primary changes);
--- NB after the skipped match `matches[processed]` lags: r3 is tagged with primary 1
+example : (jobsEx.map (·.prim)).Pairwise (· ≤ ·) := by decide
+-- bundle=primary: r1,r2 of primary 0 in one bundle (flushed when the primary changes); the
+-- skipped match of primary 1 does not shift the tags: r3 is tagged with its own primary 2
 #guard workerItems .primary jobsEx =
-  [.progress, .result [⟨.prim 0, r1⟩, ⟨.prim 0, r2⟩], .result [⟨.prim 1, r3⟩]]
+  [.progress, .result [⟨.prim 0, r1⟩, ⟨.prim 0, r2⟩], .result [⟨.prim 2, r3⟩]]
+-- the lag scenario of corpus/C05/lag_collision.json: P0 (no collocation, S0 unreadable),
+-- P1 collocating with S1 and S2 -> ONE bundle for P1
+#guard workerItems .primary [⟨0, 0, .skipped⟩, ⟨0, 1, .res none⟩, ⟨0, 2, .res none⟩, ⟨1, 0, .skipped⟩,
+    ⟨1, 1, .res (some r1)⟩, ⟨1, 2, .res (some r2)⟩] =
+  [.progress, .progress, .result [⟨.prim 1, r1⟩, ⟨.prim 1, r2⟩]]
 #guard workerItems .daily jobsEx =
   [.progress, .result [⟨.day 5, r1⟩, ⟨.day 5, r2⟩], .result [⟨.day 6, r3⟩]]
 #guard (workerItems .none jobsEx).length = 4
@@ -367,6 +409,7 @@ private def runNoDrain (s : PState) : List Event → Option PState
 example : ((3 : Int) ≤ 9 ∧ (9 : Int) ≤ 10) ∧ |(9 : Int) - 13| < 5 ∧ inPeriod none (some 20) 9 = true ∧
     (dtMin ≤ 9 ∧ (9 : Int) < dtMax) := by decide
 
-assert_axioms C05_chunks_partition C05_chunks_zero C05_worker_flush C05_worker_crash
+assert_axioms C05_chunks_partition C05_chunks_zero C05_worker_flush C05_one_bundle_per_primary
+  C05_matches_sorted C05_worker_crash
   C05_skip_errors C05_parent_collects_all C05_parent_never_stuck C05_match_complete
   C05_match_nofiles C05_pipeline_delivers C05_pipeline_edge C05_total C05_total_skip C05_readable_one
